@@ -266,7 +266,8 @@ class Session:
             before = set(self.obj.indicators.keys())
             self.obj.add_indicator(m)
             new = [n for n in self.obj.indicators.keys() if n not in before]
-            self.live[i] = new[0] if new else (m.name if hasattr(m, "name") else "")
+            # (an indicator registered again under its name replaces the object, the name stays)
+            self.live[i] = new[0] if new else (m.name if hasattr(m, "name") else self.live.get(i, ""))
             if i not in self.active:
                 self.active.append(i)
         elif op == "remove":
